@@ -32,6 +32,7 @@ def check_closure_idioms(ctx, extra_roots=()):
                          check_sentinel_codes_gather,
                          check_falsy_numeric_default,
                          check_span_contiguity,
+                         check_alias_edited_in_place,
                          check_returns_depend_alike)
     from .h5names import check_h5_names_created_once
     from .scatter import (check_pointer_scatter,
@@ -51,7 +52,9 @@ def check_closure_idioms(ctx, extra_roots=()):
                            check_index_cast_to_input_dtype)
     from . import cursors as CU
     from .order import check_pairs_plainly_oriented
-    from .forwarding import check_keywords_not_crossed
+    from .roles import check_columns_and_names_selected_together
+    from .forwarding import (check_keywords_not_crossed,
+                             check_sibling_defaults_bound)
     db = ctx.db
     seeds = [q for q in sorted(ctx.functions_analysed)
              if q in db.functions] + [q for q in extra_roots
@@ -76,6 +79,7 @@ def check_closure_idioms(ctx, extra_roots=()):
                      check_sentinel_codes_gather,
                      check_falsy_numeric_default,
                      check_span_contiguity,
+                     check_alias_edited_in_place,
                      check_truthy_position, check_jump_in_finally,
                      check_narrowing_cast, check_inplace_float_store,
                      check_h5_names_created_once, check_pointer_scatter,
@@ -85,7 +89,9 @@ def check_closure_idioms(ctx, extra_roots=()):
                      check_parallel_windows_in_step,
                      check_memo_keys, check_memo_of_outside_state,
                      check_keywords_not_crossed,
-                     check_pairs_plainly_oriented, check_index_dtype, check_borrowed_dtype,
+                     check_sibling_defaults_bound,
+                     check_pairs_plainly_oriented,
+                     check_columns_and_names_selected_together, check_index_dtype, check_borrowed_dtype,
                      check_sum_capacity, check_bound_kind,
                      check_index_arithmetic_widened,
                      check_index_cast_to_input_dtype, check_tiling,
